@@ -1,4 +1,5 @@
 import SJ.Proofs.TypedSrc
+import SJ.Proofs.TypedWithin
 import SJ.Props.Typed
 /-!
 # C09, typed targets: the three sources of the typed text deserializer model
@@ -13,11 +14,19 @@ namespace SJ.Props.TypedSrc
 open SJ SJ.Gen SJ.Model SJ.Model.Typed SJ.Proofs.Typed SJ.Props.Typed
 open SJ.Model.Machine (Src)
 
+/-- **Typed errors lie within the input** (typed analogue of `c11_within_input`): the index of every parser error and of
+    every positioned visitor error of the typed deserializer counts at most the bytes of the input — from every source, in
+    every configuration, also under a failing reader. -/
+theorem typed_within_input (env : Env) (s : Schema) (bs : Bytes) :
+    (∀ c i, deTypedTop env s bs = .err c i → i ≤ bs.length) ∧ (∀ i, deTypedTop env s bs = .data (some i) → i ≤ bs.length) :=
+  win_deTypedTop env s bs
+
 /-- **C09 (typed targets, slice vs reader).** For every configuration, schema and byte string — with a clean end of
     input or a failing reader alike — the typed deserializer's outcome from a byte slice and from an `io::Read` are
     *identical* (same value; same parser error code at the same index; same visitor error at the same index; both
     unpositioned; both `Io`), with exactly two exceptions, in both of which the READER's index is the slice's plus one
-    (never the other way round):
+    (never the other way round) and the slice's index `i` is that of a byte of the input (`i < |bs|`: the byte the reader
+    has pulled into its peek slot and counts):
 
     * a parser error whose code is `NumberOutOfRange`, `ExpectedNumericKey` or `ExpectedSomeValue` (`PeekCode`): the three
       sites that call `self.error(code)` — i.e. `read.position()` — while a byte is in the peek slot
@@ -31,10 +40,12 @@ open SJ.Model.Machine (Src)
     or inside the byte-step machine (`runPfx_src`: identical from both sources), and agrees. -/
 theorem c09_typed_slice_reader (cfg : Machine.Cfg) (flt : Bool) (s : Schema) (bs : Bytes) :
     deTypedTop { cfg := cfg, src := .slice, flt := flt } s bs = deTypedTop { cfg := cfg, src := .reader, flt := flt } s bs ∨
-    (∃ c i, PeekCode c ∧ deTypedTop { cfg := cfg, src := .slice, flt := flt } s bs = .err c i ∧
+    (∃ c i, PeekCode c ∧ i < bs.length ∧ deTypedTop { cfg := cfg, src := .slice, flt := flt } s bs = .err c i ∧
       deTypedTop { cfg := cfg, src := .reader, flt := flt } s bs = .err c (i + 1)) ∨
-    (∃ i, deTypedTop { cfg := cfg, src := .slice, flt := flt } s bs = .data (some i) ∧
+    (∃ i, i < bs.length ∧ deTypedTop { cfg := cfg, src := .slice, flt := flt } s bs = .data (some i) ∧
       deTypedTop { cfg := cfg, src := .reader, flt := flt } s bs = .data (some (i + 1))) := by
+  have hw := typed_within_input { cfg := cfg, src := .reader, flt := flt } s bs
+  revert hw
   have h : SR (deTyped { cfg := cfg, src := .slice, flt := flt } (Schema.size s + 1) 0 s bs 0)
       (deTyped { cfg := cfg, src := .reader, flt := flt } (Schema.size s + 1) 0 s bs 0) :=
     sr_deTyped cfg flt (Schema.size s + 1) 0 s bs 0
@@ -42,9 +53,9 @@ theorem c09_typed_slice_reader (cfg : Machine.Cfg) (flt : Bool) (s : Schema) (bs
   generalize deTyped { cfg := cfg, src := .slice, flt := flt } (Schema.size s + 1) 0 s bs 0 = a at h
   generalize deTyped { cfg := cfg, src := .reader, flt := flt } (Schema.size s + 1) 0 s bs 0 = b at h
   cases h with
-  | same => exact .inl (by cases a <;> rfl)
-  | errP c i hc => exact .inr (.inl ⟨c, i, hc, rfl, rfl⟩)
-  | dataP i => exact .inr (.inr ⟨i, rfl, rfl⟩)
+  | same => intro _; exact .inl (by cases a <;> rfl)
+  | errP c i hc => intro hw; exact .inr (.inl ⟨c, i, hc, hw.1 c (i + 1) rfl, rfl, rfl⟩)
+  | dataP i => intro hw; exact .inr (.inr ⟨i, hw.2 (i + 1) rfl, rfl, rfl⟩)
 
 /-- outcome without its index -/
 inductive Cls where
@@ -75,7 +86,7 @@ theorem c09_typed_slice_reader_class (cfg : Machine.Cfg) (flt : Bool) (s : Schem
     cls (deTypedTop { cfg := cfg, src := .slice, flt := flt } s bs) = cls (deTypedTop { cfg := cfg, src := .reader, flt := flt } s bs) ∧
     (idx (deTypedTop { cfg := cfg, src := .reader, flt := flt } s bs) = idx (deTypedTop { cfg := cfg, src := .slice, flt := flt } s bs) ∨
      idx (deTypedTop { cfg := cfg, src := .reader, flt := flt } s bs) = idx (deTypedTop { cfg := cfg, src := .slice, flt := flt } s bs) + 1) := by
-  rcases c09_typed_slice_reader cfg flt s bs with h | ⟨c, i, _, h1, h2⟩ | ⟨i, h1, h2⟩
+  rcases c09_typed_slice_reader cfg flt s bs with h | ⟨c, i, _, _, h1, h2⟩ | ⟨i, _, h1, h2⟩
   · rw [h]; exact ⟨rfl, .inl rfl⟩
   · rw [h1, h2]; exact ⟨rfl, .inr rfl⟩
   · rw [h1, h2]; exact ⟨rfl, .inr rfl⟩
@@ -83,7 +94,7 @@ theorem c09_typed_slice_reader_class (cfg : Machine.Cfg) (flt : Bool) (s : Schem
 /-- … in particular a value from one source is the same value from the other -/
 theorem c09_typed_slice_reader_ok (cfg : Machine.Cfg) (flt : Bool) (s : Schema) (bs : Bytes) (v : TVal) :
     deTypedTop { cfg := cfg, src := .slice, flt := flt } s bs = .ok v ↔ deTypedTop { cfg := cfg, src := .reader, flt := flt } s bs = .ok v := by
-  rcases c09_typed_slice_reader cfg flt s bs with h | ⟨c, i, _, h1, h2⟩ | ⟨i, h1, h2⟩
+  rcases c09_typed_slice_reader cfg flt s bs with h | ⟨c, i, _, _, h1, h2⟩ | ⟨i, _, h1, h2⟩
   · rw [h]
   · rw [h1, h2]; simp
   · rw [h1, h2]; simp
@@ -92,7 +103,7 @@ theorem c09_typed_slice_reader_ok (cfg : Machine.Cfg) (flt : Bool) (s : Schema) 
 theorem c09_typed_slice_reader_err (cfg : Machine.Cfg) (flt : Bool) (s : Schema) (bs : Bytes) (c : Code) (i : Nat)
     (hc : ¬ PeekCode c) (h : deTypedTop { cfg := cfg, src := .slice, flt := flt } s bs = .err c i) :
     deTypedTop { cfg := cfg, src := .reader, flt := flt } s bs = .err c i := by
-  rcases c09_typed_slice_reader cfg flt s bs with h' | ⟨c', i', hc', h1, _⟩ | ⟨i', h1, _⟩
+  rcases c09_typed_slice_reader cfg flt s bs with h' | ⟨c', i', hc', _, h1, _⟩ | ⟨i', _, h1, _⟩
   · rw [← h', h]
   · rw [h] at h1; cases h1; exact absurd hc' hc
   · rw [h] at h1; cases h1
